@@ -107,6 +107,17 @@ theorem init_spec (rks : Key) (nonce : UInt64) :
     { key := rks, bytectr := raw.bytectr, buf := raw.buf, pblk := raw.pblk } (some rks) nonce raw_len
   exact ⟨s0, h0, ⟨hinv, by rw [hz]; rfl⟩⟩
 
+/-- `crypto_aesctr_buf` on the harness' fresh object, either routing: SP 800-38A under the expanded key -/
+theorem ctrBuf_spec (hw : Bool) (rks : Key) (nonce : UInt64) (data : List UInt8) (hlim : data.length < 2^64) :
+    ctrBuf enc hw raw rks nonce data = some (Ctr.stream (enc rks) nonce data) := by
+  obtain ⟨s0, h0, hl0⟩ := init_spec rks nonce
+  have hp0 : s0.bytectr.toNat = 0 := hl0.pos
+  obtain ⟨s', hcall, _, _⟩ := stream_call_spec enc enc_length rks nonce hw s0 data hl0.inv
+    (by rw [hp0]; omega)
+  unfold ctrBuf
+  rw [h0]; simp only []
+  rw [hcall, hp0, stream_eq_streamAt _ _ (enc_length rks)]; rfl
+
 /-- `bigstream` within its own bounds: never `model!=spec`, never `model-oob`, and the stream it leaves is described -/
 theorem bigStream_spec (st : St) (rks : Key) (nonce : UInt64) (n t : Nat) (again : Bool)
     (hn : 16 ≤ n) (hn' : n ≤ bigLimit) (ht : t ≤ bigTail) :
@@ -240,14 +251,7 @@ theorem stepOp_inv (st : St) (h : ExecInv st) (op : Op) (hc : op.inContract st =
     | none => exact ⟨h, rfl, by simp⟩
     | some rks =>
       have hlim : data.length < 2^64 := by simpa [Op.inContract] using hc
-      have hb : ctrBuf enc st.hw raw rks nonce data = some (Ctr.stream (enc rks) nonce data) := by
-        obtain ⟨s0, h0, hl0⟩ := init_spec rks nonce
-        have hp0 : s0.bytectr.toNat = 0 := hl0.pos
-        obtain ⟨s', hcall, _, _⟩ := stream_call_spec enc enc_length rks nonce st.hw s0 data hl0.inv
-          (by rw [hp0]; omega)
-        unfold ctrBuf
-        rw [h0]; simp only []
-        rw [hcall, hp0, stream_eq_streamAt _ _ (enc_length rks)]; rfl
+      have hb := ctrBuf_spec st.hw rks nonce data hlim
       simp only [hb, beq_self_eq_true]
       exact ⟨h, rfl, by simp⟩
   | free =>
